@@ -8,7 +8,10 @@
 (*                then header characteristics (16 B at 11);                *)
 (*                then header offsets (24 B at 27)   -- header LAST        *)
 (*   resume     : [truncate to the payload end] ; zero characteristics ;   *)
-(*                zero offsets   -- truncate BEFORE un-finalizing          *)
+(*                zero offsets   -- truncate BEFORE un-finalizing ;        *)
+(*                then truncate to the end of the last complete section    *)
+(*                (since fix 4f05b71: nothing stale stays behind the       *)
+(*                resumed writer)                                          *)
 (* The recorded write log of every session is validated against it. A      *)
 (* rejected log is model drift (the code changed its protocol), not a      *)
 (* violation: crash-safety itself is decided by CrashObs on real crash     *)
@@ -52,6 +55,14 @@ ZeroA == /\ st = "fresh" /\ Ev.call = "reopen" /\ Ev.wkind = "v2header-character
 ZeroB == /\ st = "resumeA" /\ Ev.call = "reopen" /\ Ev.wkind = "v2header-offsets" /\ Ev.off = 27 /\ Ev.len = 24
          /\ st' = "open" /\ Adv /\ UNCHANGED <<sid, end, sub, idxNext, hw>>
 
+(* after the rescan: drop what follows the last complete section (a CARv1 session has no header to zero
+   and starts with this step) *)
+TruncEnd == /\ Ev.call = "reopen" /\ Ev.kind = "truncate"
+            /\ \/ st = "open" /\ ~Ev.v1 /\ sub = 0 /\ hw # 3
+               \/ st = "fresh" /\ Ev.v1
+            /\ (end >= 0 => Ev.size <= end)
+            /\ end' = Ev.size /\ st' = "open" /\ hw' = 3 /\ Adv /\ UNCHANGED <<sid, sub, idxNext>>
+
 (* Put: three contiguous appends *)
 Sec == /\ st \in {"open", "sec", "fresh"} /\ Ev.call = "put" /\ Ev.wkind = "section"
        /\ (st = "fresh" => Ev.v1)                 \* a resumed CARv1 session issues no write before its first Put
@@ -72,7 +83,7 @@ HdrA == /\ st = "index" /\ Ev.call = "finalize" /\ Ev.wkind = "v2header-characte
 HdrB == /\ st = "hdrA" /\ Ev.call = "finalize" /\ Ev.wkind = "v2header-offsets" /\ Ev.off = 27 /\ Ev.len = 24
         /\ st' = "final" /\ Adv /\ UNCHANGED <<sid, end, sub, idxNext, hw>>
 
-Step == l <= Len(Trace) /\ (Reset \/ (Ev.sid = sid /\ (Pragma \/ V1Header \/ Trunc \/ ZeroA \/ ZeroB \/ Sec \/ Idx \/ HdrA \/ HdrB)))
+Step == l <= Len(Trace) /\ (Reset \/ (Ev.sid = sid /\ (Pragma \/ V1Header \/ Trunc \/ ZeroA \/ ZeroB \/ TruncEnd \/ Sec \/ Idx \/ HdrA \/ HdrB)))
 Spec == Init /\ [][Step]_vars
 
 (* design-level safety of the protocol *)
